@@ -5,9 +5,10 @@ CONSTANTS
   AgentHost = 9
   FixMixedSum = TRUE
   FixEmptyHost = TRUE
-  Shapes <- MCLeaves6
+  Shapes <- MCLeaves10
   Percs = {FALSE, TRUE}
-  MaxLeaves = 4
+  MaxLeaves = 3
 VIEW View
 ACTION_CONSTRAINT ExportMerges
+INVARIANTS MergeCanonical MergeHosts TsCanonical
 CHECK_DEADLOCK FALSE
